@@ -6,7 +6,7 @@ Import ListNotations.
 From Supp Require Import Model.PyCore Model.Reach Model.Sem Model.SemX
   Proofs.ReachProofs Proofs.ReachCorollaries Proofs.SemXProofs.
 From Supp Require Import Model.ReachX Proofs.ReachXBridge.
-From Supp Require Import Model.Nested Proofs.NestedProofs.
+From Supp Require Import Model.Nested Proofs.NestedProofs Model.NestedRun Proofs.NestedRunProofs.
 
 (* Every run of every command (no restriction: return, break, continue, exceptions raised
    anywhere and caught by any enclosing try, finally clauses), from any state whose bound names
@@ -110,3 +110,31 @@ Proof.
   - split; [eexists; eexists; vm_compute; reflexivity|].
     repeat split; vm_compute; reflexivity.
 Qed.
+
+(* ---- the LEGB premise discharged for an executable chain semantics (Model/NestedRun.v) ---------
+   [run_chain]: every function defines the next one and calls it as its last statement; the callee
+   starts with its own locals unbound and sees every other name as the caller's frame holds it at
+   the time of the call (tied to CPython by part D of the check, traces compared in Coq).
+   A run binds only names its body binds ... *)
+Theorem C01_run_binds_only_own : forall fuel c p ds p' tr o ds' x d,
+  runX fuel c p ds = DoneX p' tr o ds' -> p' x = Some d -> In x (binds c) \/ exists d', p x = Some d'.
+Proof. exact runX_frame. Qed.
+Print Assumptions C01_run_binds_only_own.
+
+(* ... the analysis leaves every other name alone ... *)
+Theorem C01_analysis_frame : forall c s x a, ~ In x (binds c) -> In a (an c s x) -> In a (s x).
+Proof. exact an_frame. Qed.
+Print Assumptions C01_analysis_frame.
+
+(* ... so every namespace the chain semantics produces meets [rt_env], and for every chain of nested
+   functions under the module, every fuel and every decision list: at every level that runs, every
+   read that finds its name bound is visible to supp and not reported E02. *)
+Theorem C01_chain_run_visible : forall fuel bodies ds,
+  forallb level_visible (run_chain fuel [] bodies renv0 ds) = true.
+Proof. exact module_chain_visible. Qed.
+Print Assumptions C01_chain_run_visible.
+
+(* Non-vacuity: main binds x and calls inner, which reads x (free), binds and reads y; two levels run *)
+Example C01_chain_example :
+  map snd (run_chain 20 [] [ex_outer; ex_inner] renv0 [0%nat]) = [[]; [(10, Some 1); (11, Some 3)]].
+Proof. vm_compute. reflexivity. Qed.
